@@ -51,13 +51,13 @@ LEVEL_NOTE = ('Trusted: Coq kernel; hand-written Sched.v tied by trace replay; i
 
 # ---- tie ------------------------------------------------------------------------------------------------
 
-def traced_cases(ctx, n_docs, p_try, rng=None, n_edits=3, p_tryo=0.0, p_lookup=0.0):
+def traced_cases(ctx, n_docs, p_try, rng=None, n_edits=3, p_tryo=0.0, p_lookup=0.0, p_multi=0.0):
   """[(coq term, info, stats)] from n_docs random documents."""
   rng = rng or ctx.rng
   out = []
   skipped = collections.Counter()
   for _ in range(n_docs):
-    prog = ST.gen_program(rng, p_try=p_try, p_tryo=p_tryo, p_lookup=p_lookup)
+    prog = ST.gen_program(rng, p_try=p_try, p_tryo=p_tryo, p_lookup=p_lookup, p_multi=p_multi)
     n = rng.choice([1, 2, 2, 3])
     d, r = ST.gen_rows(rng, n)
     pseed = rng.randrange(1 << 30)
@@ -83,7 +83,7 @@ def traced_cases(ctx, n_docs, p_try, rng=None, n_edits=3, p_tryo=0.0, p_lookup=0
         if term is None:
           skipped[st[:40]] += 1
         else:
-          out.append((term, copy.deepcopy(info), st, all(not ST.has_try(a) for a in snap.values()), ST.coq_edges(lp)))
+          out.append((term, copy.deepcopy(info), st, all(not ST.has_try(a) and not ST.has_multi(a) for a in snap.values()), ST.coq_edges(lp)))
       done = len(loops)
       if k == n_edits:
         break
@@ -168,7 +168,7 @@ def correspond(ctx):
   if first != [11, 2]:
     # the engine's own order gives a stale value: a concrete failing input, reported by search (RULE_DOC) with its replay
     ctx.notes.append('engine order gives B = %r on the lookups-first example (from scratch: [11, 2])' % (first,))
-  cases = traced_cases(ctx, ctx.n(30, 500), p_try=0.12, p_tryo=0.2, p_lookup=0.4)
+  cases = traced_cases(ctx, ctx.n(30, 500), p_try=0.12, p_tryo=0.2, p_lookup=0.4, p_multi=0.25)
   for term, info, st, strict, _edges in cases:
     nontrivial = bool(st.get('need') or st.get('cycle') or st.get('opp'))
     ctx.count(term, nontrivial=nontrivial, sample=info if nontrivial else None,
@@ -479,6 +479,22 @@ def search(ctx):
     diff = compare_runs(script, pseeds)
     ctx.count(('script', repr(script)), nontrivial=True, kind='search:cycle-break sequence')
     ctx.bump('search:bundles', len(script) * (k + 1))
+    if diff:
+      w['pseeds'] = [diff[1]] if diff[1] is not None else []
+      w['script'] = script[:diff[0] + 1]
+      ctx.violation('nontermination' if 'did not terminate' in diff[2] else 'order_dependent', diff[2], w)
+    if too_many_hangs(ctx):
+      return
+  # (a'') formulas that require several rows of a column at once (sum($RefList.col), lookupRecords(...).col) with
+  # row-dependent formulas: cycles / chains through some rows of a column (generator of C18's multi-row stream)
+  from harness.props import c18
+  for _ in range(ctx.n(12, 300)):
+    mw = c18.gen_multirow(ctx.rng)
+    script = c18.mr_script(mw)[0]
+    pseeds = [ctx.rng.randrange(1 << 30) for _ in range(k)]
+    w = {'stream': 'script', 'script': script, 'pseeds': pseeds}
+    diff = compare_runs(script, pseeds)
+    ctx.count(('script', repr(script)), nontrivial=True, kind='search:multi-row requirement')
     if diff:
       w['pseeds'] = [diff[1]] if diff[1] is not None else []
       w['script'] = script[:diff[0] + 1]
